@@ -61,3 +61,42 @@ func derBody(b []byte) []byte {
 	}
 	return b[2+int(b[1]&0x7f):]
 }
+
+// c10ReissueOldVersion rewrites a library-made SM2 certificate as an X.509 version 1 or version 2 certificate: the
+// extensions are dropped, the version field is dropped (v1) or set to 1 (v2), and the new TBSCertificate is signed with the
+// reference signer under the same issuer key. Such a certificate says nothing about being a CA.
+func c10ReissueOldVersion(der []byte, issuer *sm2.PrivateKey, version int, r *mon.RNG) []byte {
+	nodes, ok := derParse(der, 0)
+	if !ok || len(nodes) != 1 || len(nodes[0].children) != 3 {
+		return nil
+	}
+	tbs := nodes[0].children[0]
+	var kept []*derNode
+	for _, ch := range tbs.children {
+		switch {
+		case len(ch.tag) == 1 && ch.tag[0] == 0xa3:
+			continue
+		case len(ch.tag) == 1 && ch.tag[0] == 0xa0:
+			if version == 2 {
+				kept = append(kept, &derNode{tag: []byte{0xa0}, content: []byte{2, 1, 1}})
+			}
+			continue
+		}
+		kept = append(kept, ch)
+	}
+	tbs.children = kept
+	tbsDER := tbs.encode()
+	k := new(big.Int).SetBytes(r.Bytes(31))
+	k.Add(k, big.NewInt(1))
+	R, S, ok := ref.SignWithK(issuer.D, k, issuer.X, issuer.Y, ref.DefaultUID, tbsDER)
+	if !ok {
+		return nil
+	}
+	sig, err := asn1.Marshal(struct{ R, S *big.Int }{R, S})
+	if err != nil {
+		return nil
+	}
+	nodes[0].children[2] = &derNode{tag: []byte{0x03}, content: append([]byte{0}, sig...)}
+	nodes[0].children[0] = &derNode{tag: []byte{0x30}, content: derBody(tbsDER)}
+	return nodes[0].encode()
+}
